@@ -97,6 +97,25 @@ BLOCKED_FINISHED = {'devices': [{'k': 'source', 'name': 'src', 'cycle': 0, 'part
                                 {'k': 'sink', 'name': 'snk', 'up': ['h2'], 'cycle': 0}]}
 
 
+GROUP_FANOUT = {'groups': [{'name': 'g', 'devices': ['m1']}],
+                'devices': [{'k': 'source', 'name': 'src', 'cycle': 'c0', 'parts': 2},
+                            {'k': 'proc', 'name': 'm1', 'up': [], 'cycle': 'c1'},
+                            {'k': 'path', 'name': 'gp', 'group': 'g', 'up': ['src']},
+                            {'k': 'proc', 'name': 'p1', 'up': ['gp'], 'cycle': 'c2'}, {'k': 'proc', 'name': 'p2', 'up': ['gp'], 'cycle': 'c2'},
+                            {'k': 'sink', 'name': 'snk', 'up': ['p1', 'p2'], 'cycle': 'cs'}]}
+PATH_THEN_SLOW = {'groups': [{'name': 'g', 'devices': ['m1']}],
+                  'devices': [{'k': 'source', 'name': 'src', 'cycle': 0, 'parts': 3},
+                              {'k': 'proc', 'name': 'm1', 'up': [], 'cycle': 'c1'},
+                              {'k': 'path', 'name': 'gp', 'group': 'g', 'up': ['src']},
+                              {'k': 'handler', 'name': 'slow', 'up': ['gp'], 'cycle': 'c2'},
+                              {'k': 'sink', 'name': 'snk', 'up': ['slow'], 'cycle': 0}]}
+REWORK = {'devices': [{'k': 'source', 'name': 'src', 'cycle': 'c0', 'parts': 1, 'value': 0},
+                      {'k': 'handler', 'name': 'm', 'up': ['src'], 'up_late': ['src', 'rw'], 'cycle': 'c1'},
+                      {'k': 'gate', 'name': 'g_ok', 'up': ['m'], 'pred': 'value_ge1'}, {'k': 'gate', 'name': 'g_bad', 'up': ['m'], 'pred': 'value_lt1'},
+                      {'k': 'handler', 'name': 'rw', 'up': ['g_bad'], 'cycle': 'c2', 'recv_addvalue': 1},
+                      {'k': 'sink', 'name': 'snk', 'up': ['g_ok'], 'cycle': 0}]}
+
+
 def _faults_basic(nparts, ops, **kw):
     return with_ops(serial('P', nparts), ops, **kw)
 
@@ -123,6 +142,8 @@ def _subs(tier, prop):
         S.append(mk_sub('F7-batches-into-batcher-slow-consumer', batches_into_batcher(), mons, zero=['cs', 'c0']))
         S.append(mk_sub('F7-buffer-into-batcher-sizeNone', buffer_into_batcher(None), mons, zero=['c0', 'd1', 'cs'],
                         ranges={'b0': (0, 3), 'b1': (0, 3)}))
+        S.append(mk_sub('F4-fanout-behind-group-path', GROUP_FANOUT, mons, zero=['cs']))
+        S.append(mk_sub('F1-P-empty-budget', serial('P', 0), mons))
         S.append(mk_sub('F7-buffer-into-batcher-size2', buffer_into_batcher(2), mons, zero=['c0', 'd1'], ranges={'b0': (0, 3), 'b1': (0, 3)}))
     elif prop == 'C03':
         mons = ['wakeup']
@@ -164,6 +185,9 @@ def _subs(tier, prop):
             S.append(mk_sub('F7-batches-into-batcher-n3', batches_into_batcher((3, 3, 3)), mons, zero=['cs']))
         S.append(mk_sub('F4-nested-n2', NESTED, mons, zero=['cs']))
         S.append(mk_sub('F4-reentrant-n2', REENTRANT, mons, zero=['cs', 'c0']))
+        S.append(mk_sub('F8-path-blocked-while-downstream-frees', with_ops(PATH_THEN_SLOW, [
+            {'k': 'block', 'dev': 'gp', 't': 't0'}, {'k': 'unblock', 'dev': 'gp', 't': 't1'}]), mons,
+            pre=['2 * c1 < t0', 't0 < c1 + c2', 'c1 + c2 < t1']))
         S.append(mk_sub('F8-budget-raise', with_ops(serial('H', 1), [
             {'k': 'budget', 'dev': 'src', 't': 't0', 'n': 1}]), mons, zero=['cs']))
     elif prop == 'C05':
@@ -177,6 +201,11 @@ def _subs(tier, prop):
                            {'k': 'proc', 'name': 'p1', 'up': ['buf'], 'cycle': 'c1'}, {'k': 'proc', 'name': 'p2', 'up': ['buf'], 'cycle': 'c1'},
                            {'k': 'sink', 'name': 'snk', 'up': ['p1', 'p2'], 'cycle': 0}]}
         S.append(mk_sub('F2-delay-buffer-two-consumers', fan, mons, pre=['c0 < d1']))
+        fanin = {'devices': [{'k': 'source', 'name': 's1', 'cycle': 'c0', 'parts': 1}, {'k': 'source', 'name': 's2', 'cycle': 'c0', 'parts': 2},
+                             {'k': 'buffer', 'name': 'buf', 'up': ['s1', 's2'], 'delay': 0, 'cap': 3},
+                             {'k': 'handler', 'name': 'h', 'up': ['buf'], 'cycle': 'c1'},
+                             {'k': 'sink', 'name': 'snk', 'up': ['h'], 'cycle': 0}]}
+        S.append(mk_sub('F2-fan-in-two-producers-same-instant', fanin, mons))
         S.append(mk_sub('F7-batch-backlog-cap5', batch_backlog_in_buffer(5, (2, 2, 2)), mons + ['census'], zero=['cs', 'c0']))
         S.append(mk_sub('F7-batch-backlog-cap4-mixed', batch_backlog_in_buffer(4, (3, None, 2)), mons + ['census'], zero=['cs']))
         for size in (None, 2):
@@ -256,6 +285,7 @@ def _subs(tier, prop):
             shapes += [(''.join(ks), 3, {i + 1: cap for i, kk in enumerate(ks) if kk == 'B'})
                        for ks in itertools.product('HPB', repeat=2) for cap in ([1, 2] if 'B' in ks else [1])]
             shapes += [('HPB', 2, {3: 1}), ('BPH', 2, {1: 2}), ('PBP', 2, {2: 1}), ('PPP', 2, {})]
+        shapes = shapes + [('P', 0, {})]
         for kinds, n, caps in shapes:
             spec = serial(kinds, n, caps=caps)
             names = L.params_of(spec)
@@ -318,6 +348,11 @@ def _subs(tier, prop):
         spz['devices'][1]['addvalue'] = 'a1'
         # zero cycle time: the part is processed (and revalued) inside the source's own hand-over call
         S.append(mk_sub('F1-P-n2-values-zero-cycle', spz, mons, zero=['cs', 'c1'], ranges={'v0': (-L.T, L.T), 'a1': (1, L.T)}))
+        spw = serial('P', 2)
+        spw['devices'][0]['value'] = 'v0'
+        spw['devices'][1]['addvalue'] = 'a1'
+        spw['devices'][2]['recv_addvalue'] = 'a2'
+        S.append(mk_sub('F1-P-n2-sink-callback-writes-down', spw, mons, zero=['cs', 'c0'], ranges={'v0': (0, L.T), 'a1': (0, L.T), 'a2': (-L.T, -1)}))
         spb = {'devices': [{'k': 'source', 'name': 'src', 'cycle': 'c0', 'parts': 2, 'batches': [[2, 1], 2], 'value': 'v0'},
                            {'k': 'handler', 'name': 'h1', 'up': ['src'], 'cycle': 'c1'},
                            {'k': 'sink', 'name': 'snk', 'up': ['h1'], 'cycle': 0}]}
@@ -376,6 +411,8 @@ def _subs(tier, prop):
                                {'k': 'sink', 'name': 'snk', 'up': ['op'], 'cycle': 0}]}
         S.append(mk_sub('F4-nested-inner-path-first-of-two', nested2, mons, zero=['c0']))
         S.append(mk_sub('F7-batches-through-gate-refused', batches_through_gate(2), mons, zero=['cs', 'c0']))
+        S.append(mk_sub('F3-rework-loop-through-value-gates', REWORK, mons))
+        S.append(mk_sub('F4-fanout-behind-group-path', GROUP_FANOUT, mons, zero=['cs', 'c0']))
         fanb = {'devices': [{'k': 'source', 'name': 'src', 'cycle': 'c0', 'parts': 2},
                             {'k': 'proc', 'name': 'p1', 'up': ['src'], 'cycle': 'c1'}, {'k': 'proc', 'name': 'p2', 'up': ['src'], 'cycle': 'c1'},
                             {'k': 'sink', 'name': 'snk', 'up': ['p1', 'p2'], 'cycle': 0}], 'idle_longest': ['p1', 'p2'],
@@ -512,7 +549,7 @@ def bounds_text(tier, prop):
 REQUIRED = {
     'C02': ['part_delivered', 'part_lost_to_failure'],
     'C03': ['blocked_part_genuinely_blocked'],
-    'C05': ['buffer_released_part', 'buffer_full', 'buffer_two_waiting', 'buffer_released_exactly_at_delay'],
+    'C05': ['buffer_released_part', 'buffer_full', 'buffer_two_waiting', 'buffer_released_exactly_at_delay', 'two_arrivals_same_instant'],
     'C06': ['part_finished_on_time', 'processing_interrupted_by_maintenance', 'processing_resumed', 'failure_ended_processing',
             'offset_floored_at_zero', 'offset_set_from_finish_callback'],
     'C04': ['recurrence_matched', 'blocked_by_downstream'],
